@@ -77,6 +77,8 @@ def c01(v, tier, seed):
     gen_and_replay(v, wd, ex, bind, "C01", tier, rnd, "get", ALL_VIEWS, 2 if q else 24, True, props=["ReadOnlyOps"])
     # values that collide with in-band error codes (2^w - errno) read back through every path
     gen_and_replay(v, wd, ex, bind, "C01", tier, rnd, "sentinel", ALL_VIEWS, 0, False, props=["ReadOnlyOps"])
+    # every descriptor shape the generic reader accepts (start quadlet x bit offset 0..31 x width 0..64), not only those of named fields
+    shape_sweep(v, wd, ex, "C01", rnd, q, "descriptor", ops=("get",))
     traces(v, wd, ex, bind, "C01", rnd, 24000 if q else 1500000, ALL_VIEWS, ("get",), nshards=8 if q else 16)
     # the dedicated getter's return type must be able to carry the whole field
     layout = pdu.field_widths(wd)
@@ -103,6 +105,8 @@ def c02(v, tier, seed):
     # prior contents related to the write's own result (one bit away from it, quadlet byte-reversed): "already in place" short cuts
     gen_and_replay(v, wd, ex, bind, "C02", tier, rnd, "nearset", ALL_VIEWS, 0, False,
                    props=["FrameOK", "OthersKept"], invs=["ReadBack"], readback=True)
+    # every descriptor shape the generic writer accepts
+    shape_sweep(v, wd, ex, "C02", rnd, q, "descriptor", ops=("set",))
     traces(v, wd, ex, bind, "C02", rnd, 24000 if q else 1500000, ALL_VIEWS, ("set",), nshards=8 if q else 16)
     v.cov["rule"] = ("TLC enumerates Set on every field x path x boundary values (0, 1, 2^w-1, 2^w, every single bit, all-ones, 0xAA.., 0x55..) "
                      "x background images; each is executed on exact and slack placements with all bytes compared, then read back through every reader; "
@@ -545,16 +549,17 @@ def c13(v, tier, seed):
 ALL_OFFS = list(range(32))
 ALL_WS = list(range(65))
 
-def shape_sweep(v, wd, ex, pid, rnd, q, tag, memhost="LE", branch="LE"):
+def shape_sweep(v, wd, ex, pid, rnd, q, tag, memhost="LE", branch="LE", ops=None):
     import hostx
     ws = [0, 1, 2, 7, 8, 9, 15, 16, 17, 24, 29, 31, 32, 33, 40, 48, 63, 64] if q else ALL_WS
     res = run_tlc("GenImpl", hostx.impl_cfg([0, 1], ALL_OFFS, ws, memhost, branch), wd)
     v.add_tlc("GenImpl/shapes %s/%s" % (memhost, branch), res)
     if not res.ok: raise Infra("GenericImpl violates T7:\n" + (res.violation or "")[-1200:])
-    st = hostx.raw_replay(v, ex, res.emitted, rnd, tag)
+    vecs = [x for x in res.emitted if ops is None or x["op"] in ops]
+    st = hostx.raw_replay(v, ex, vecs, rnd, tag)
     v.cov["evaluations"] += st["executed"]
-    v.cov.setdefault("replayed_transitions", 0); v.cov["replayed_transitions"] += len(res.emitted)
-    v.sample({"tlc_transition": res.emitted[len(res.emitted) // 2]})
+    v.cov.setdefault("replayed_transitions", 0); v.cov["replayed_transitions"] += len(vecs)
+    v.sample({"tlc_transition": vecs[len(vecs) // 2]})
 
 
 @check("C14")
